@@ -37,10 +37,12 @@ def c15EncObs : Obs → List Nat
   | .blocked l => [1, l]
   | .keyError k => [2, k]
   | .regen => [3]
+  | .members n => [4, n]
 
 def c15Ev : P Ev := do
   let t ← nat
   if t = 0 then do let ep ← nat; let m ← nat; let ev ← nat; pure (.trigger ep m ev)
+  else if t = 2 then do let m ← nat; pure (.readd m)
   else pure .regen
 
 def c15Case : P String := do
